@@ -186,7 +186,12 @@ pub fn explore_body_sharded(prop: &str, tier: &str, body_idx: usize, bound: usiz
     let mut children = vec![];
     for sh in 0..nshards {
         let out = outdir.join(format!("s{sh}.json"));
-        let c = std::process::Command::new(&exe)
+        let mut cmd = std::process::Command::new(&exe);
+        if prop == "C13" {
+            // fault injection inside E3 bodies: the shim is loaded in log mode (no log file) and armed by the body
+            cmd.env("LD_PRELOAD", crate::shimrun::shim_path()).env("FJALLFS_ROOT", "/dev/shm").env("FJALLFS_MODE", "log");
+        }
+        let c = cmd
             .args(["e3shard", prop, tier, &body_idx.to_string(), &sh.to_string(), &nshards.to_string(), &bound.to_string(), &format!("{secs}")])
             .arg(&out)
             .stdout(std::process::Stdio::null())
